@@ -152,29 +152,64 @@ def run(facts, rep, int_ty='i64', repo='/repo'):
         rep.indet('E10.R3: ykh::main not found')
     else:
         rep.saw(m)
+
+        def is_run(term):
+            term = strip(term)
+            return term[0] == 'call' and term[1].endswith('app::App::run')
+
+        def arms(body, subject):
+            """per path: which arm of the subject Result it is on, whether it prints / exits"""
+            out = []
+            for p in SymEx(body, follow_diverge=True).run():
+                cand = {0, 1}           # Result has exactly the variants Ok = 0, Err = 1
+                seen_sw = False
+                for e in p.branches():
+                    tt = e.term
+                    if tt[0] == 'discr' and subject(tt[1]):
+                        seen_sw = True
+                        if isinstance(e.value, int):
+                            cand &= {e.value}
+                        elif e.value == 'else' and e.args:
+                            cand -= set(e.args)
+                if seen_sw and not cand:
+                    continue            # neither Ok nor Err: infeasible path
+                arm = list(cand)[0] if (seen_sw and len(cand) == 1) else None
+                prints = [e for e in p.calls() if e.name.endswith('io::_print')]
+                exits = [e for e in p.calls() if e.name.endswith('process::exit')]
+                fwd = [(e, i) for e in p.calls() if e.name.startswith('ykh::') and e.name in facts.bodies
+                       for i, a in enumerate(e.args) if subject(a)]
+                out.append((arm, prints, exits, fwd, p))
+            return out
+
         okp = errp = 0
         bad = []
-        for p in SymEx(m, follow_diverge=True).run():
-            names = [e.name for e in p.calls()]
-            prints = [e for e in p.calls() if e.name.endswith('io::_print')]
-            exits = [e for e in p.calls() if e.name.endswith('process::exit')]
-            arm = None
-            for e in p.branches():
-                t = e.term
-                if t[0] == 'discr' and t[1][0] == 'call' and t[1][1].endswith('app::App::run') and isinstance(e.value, int):
-                    arm = e.value
-            if prints:
-                if arm == 0:
-                    okp += 1
-                else:
-                    bad.append('stdout is written on a path that is not the Ok arm of App::run')
-            if arm == 1:
+        work = [(m, is_run)]
+        seen_b = set()
+        while work:
+            body, subj = work.pop()
+            if body.defp in seen_b:
+                continue
+            seen_b.add(body.defp)
+            rep.saw(body)
+            for arm, prints, exits, fwd, p in arms(body, subj):
+                for e, i in fwd:
+                    # the result is handed to a helper: analyse the helper with its parameter as the subject
+                    g = facts.bodies[e.name]
+                    work.append((g, (lambda idx: (lambda term: strip(term) == ('arg', idx + 1)))(i)))
+                if fwd:
+                    continue
                 if prints:
-                    bad.append('the Err arm writes to stdout')
-                if not exits or not all(e.args and e.args[0][0] == 'const' and e.args[0][1] not in (0,) for e in exits):
-                    bad.append('the Err arm does not end in process::exit(non-zero)')
-                else:
-                    errp += 1
+                    if arm == 0:
+                        okp += 1
+                    else:
+                        bad.append('stdout is written on a path that is not the Ok arm of App::run (%s)' % body.defp)
+                if arm == 1:
+                    if prints:
+                        bad.append('the Err arm writes to stdout')
+                    if not exits or not all(e.args and e.args[0][0] == 'const' and e.args[0][1] not in (0,) for e in exits):
+                        bad.append('the Err arm does not end in process::exit(non-zero)')
+                    else:
+                        errp += 1
         inst = 'main|table only on Ok, Err => exit(1)'
         if bad or okp == 0 or errp == 0:
             rep.violation('E10.R3-error-exit', inst, 'ykh main: %s' % ('; '.join(sorted(set(bad))) or 'Ok/Err arms not recognised (%d/%d)' % (okp, errp)),
